@@ -187,28 +187,70 @@ Definition onat_eqb (a b : option nat) : bool :=
 Definition fs_agree (m o : fsys) : bool :=
   forallb (fun e => ocontent_eqb (lookup m (fst e)) (lookup o (fst e))) (m ++ o).
 
-(* what the harness observes after a step: directory, and (pc, psy) of runs 0..n-1 *)
-Definition obs := (fsys * list (pc * option nat))%type.
+(* What the harness observes after a step of run [a]: the (pc, psy) of runs 0..n-1, and the
+   content (None = absent) of (i) the file the action of run [a] was aimed at and (ii) every
+   file whose content differs from the snapshot before the step.  [step] changes no other file
+   than (i), so agreement on these files after every step together with agreement of the whole
+   directory at the start is agreement of the whole directory after every step; the whole
+   directory is compared again at the end. *)
+Definition delta := list (fname * option content).
+Definition runobs := list (pc * option nat).
 
-Fixpoint runs_agree (rs : nat -> run) (i : nat) (l : list (pc * option nat)) : bool :=
+Definition delta_agree (fs : fsys) (d : delta) : bool :=
+  forallb (fun e => ocontent_eqb (lookup fs (fst e)) (snd e)) d.
+
+Fixpoint runs_agree (rs : nat -> run) (i : nat) (l : runobs) : bool :=
   match l with
   | [] => true
   | (p, y) :: r => pc_eqb (r_pc (rs i)) p && onat_eqb (r_psy (rs i)) y && runs_agree rs (S i) r
   end.
-Definition obs_agree (st : state) (o : obs) : bool :=
-  fs_agree (st_fs st) (fst o) && runs_agree (st_runs st) 0 (snd o).
 
-Fixpoint replay (sch : scheme) (st : state) (tr : list (nat * obs)) : bool :=
+Fixpoint replay (sch : scheme) (st : state) (tr : list (nat * delta * runobs)) : option state :=
   match tr with
-  | [] => true
-  | (a, o) :: r => let st' := step sch st a in obs_agree st' o && replay sch st' r
+  | [] => Some st
+  | (a, d, ro) :: r =>
+      let st' := step sch st a in
+      if delta_agree (st_fs st') d && runs_agree (st_runs st') 0 ro then replay sch st' r else None
   end.
 
-(* a case: scheme, initial directory, kernels of runs 0..n-1, observation of the initial
-   state, and the schedule with the observation after each step *)
-Definition case := (scheme * fsys * list kernel * obs * list (nat * obs))%type.
+(* compact constructors for the generated cases *)
+Definition mkK (b r d : nat) : kernel := {| k_base := b; k_rout := r; k_body := d |}.
+Definition mkT (mb mi rb ri d : nat) : content :=
+  Text {| c_mod := (mb, mi); c_rout := (rb, ri); c_body := d |}.
+
+(* a case: scheme, initial directory, kernels of runs 0..n-1, observed initial run states, the
+   schedule with the observation after each step, the observed final directory *)
+Definition case := (scheme * fsys * list kernel * runobs * list (nat * delta * runobs) * fsys)%type.
 Definition check_case (c : case) : bool :=
   match c with
-  | (sch, fs0, ks, o0, tr) =>
-      let st := init fs0 (ks_of ks) in obs_agree st o0 && replay sch st tr
+  | (sch, fs0, ks, ro0, tr, fsN) =>
+      let st := init fs0 (ks_of ks) in
+      runs_agree (st_runs st) 0 ro0 &&
+      match replay sch st tr with
+      | Some stN => fs_agree (st_fs stN) fsN
+      | None => false
+      end
+  end.
+
+(* index of the first step at which model and observation differ (for replay files) *)
+Fixpoint first_diff (sch : scheme) (st : state) (tr : list (nat * delta * runobs)) (k : nat) : option nat :=
+  match tr with
+  | [] => None
+  | (a, d, ro) :: r =>
+      let st' := step sch st a in
+      if delta_agree (st_fs st') d && runs_agree (st_runs st') 0 ro then first_diff sch st' r (S k)
+      else Some k
+  end.
+Definition model_trace (c : case) : option nat * list (list pc) * fsys :=
+  match c with
+  | (sch, fs0, ks, ro0, tr, fsN) =>
+      let st := init fs0 (ks_of ks) in
+      let n := length ks in
+      let sts := fold_left (fun acc x => match acc with
+                                         | [] => []
+                                         | s :: _ => step sch s (fst (fst x)) :: acc
+                                         end) tr [st] in
+      (first_diff sch st tr 0,
+       rev (map (fun s => map (fun i => r_pc (st_runs s i)) (seq 0 n)) sts),
+       match sts with s :: _ => st_fs s | [] => [] end)
   end.
